@@ -7,12 +7,12 @@ git checkout -q -- . ; git apply ${SD:-SEEDED}/$x/patch.diff || { echo "patch do
 echo "== $wt $x: $(python3 -c "import json;print(json.load(open('${SD:-SEEDED}/$x/meta.json')).get('summary','')[:160])")"
 if [ "${SKIP_TESTS:-0}" != 1 ]; then
   echo "tests: $(PYTHONPATH=$wt /venv/bin/python -m pytest -q -p no:cacheprovider --timeout=900 --continue-on-collection-errors 2>&1 | tail -1)"
-  PYTHONPATH=$wt timeout 300 /venv/bin/python ${SD:-SEEDED}/$x/demo.py > /tmp/vp_demo.out 2>&1; echo "demo with change: exit $? ($(tail -1 /tmp/vp_demo.out | cut -c1-100))"
+  PYTHONPATH=$wt timeout 300 /venv/bin/python ${SD:-SEEDED}/$x/demo.py > /tmp/vp_demo.$$.out 2>&1; echo "demo with change: exit $? ($(tail -1 /tmp/vp_demo.$$.out | cut -c1-100))"
 fi
 for c in "$@"; do
   VERIF_REPO=$wt timeout 3000 /venv/bin/python /verif/check $c --tier $tier 2>&1 | grep -E "^(HELD|VIOLATED|INCONCLUSIVE|VIOLATION)" | cut -c1-200 | (head -2; tail -1)
 done
 git checkout -q -- .
 if [ "${SKIP_TESTS:-0}" != 1 ]; then
-  PYTHONPATH=$wt timeout 300 /venv/bin/python ${SD:-SEEDED}/$x/demo.py > /tmp/vp_demo.out 2>&1; echo "demo without change: exit $?"
+  PYTHONPATH=$wt timeout 300 /venv/bin/python ${SD:-SEEDED}/$x/demo.py > /tmp/vp_demo.$$.out 2>&1; echo "demo without change: exit $?"
 fi
